@@ -90,3 +90,31 @@ Theorem C09_realified_convention_pairing :
       /\ length (Realified.lin K k0 k1 kadd kmul no S v) = no.
 Proof. exact Realified.convention_pairing. Qed.
 Print Assumptions C09_realified_convention_pairing.
+
+(* the polynomial primitives over complex numbers (K[i], any commutative ring K): the rules read off the source on this run
+   are g times the coefficient D of the exact expansion f(z + h) = f(z) + D h + R h^2, i.e. g * f'(z) - what the
+   convention assigns to a holomorphic map (C09_convention above: holomorphic_vjp) *)
+From AG Require Import PolyRules.
+From AGGen Require Import GenRingRules.
+Theorem C09_polynomial_rules_over_complex_numbers :
+  forall (K : Type) (k0 k1 : K) (kadd kmul ksub : K -> K -> K) (kopp : K -> K),
+    ring_theory k0 k1 kadd kmul ksub kopp eq ->
+    let C := (K * K)%type in
+    let z0 := ComplexRing.c0 K k0 in let z1 := ComplexRing.c1 K k0 k1 in
+    let ad := ComplexRing.cadd K kadd in let ml := Complex.cmul K kadd kmul ksub in
+    let sb := ComplexRing.csub K ksub in let op := ComplexRing.copp K kopp in
+    forall x y : C,
+      (is_rule C ad ml (fun t => ml t y) x y z0 (ring_vjp_multiply_0 C ml (ml x y) x y) (fun g => ml g y)
+       /\ is_rule C ad ml (fun t => ml x t) y x z0 (ring_vjp_multiply_1 C ml (ml x y) x y) (fun g => ml x g))
+      /\ is_rule C ad ml (fun t => ml t t) x (ml (ad z1 z1) x) z1 (ring_vjp_square_0 C z0 z1 ad ml (ml x x) x)
+                 (fun g => ring_jvp_square_0 C z0 z1 ad ml g (ml x x) x)
+      /\ (is_rule C ad ml (fun t => sb t y) x z1 z0 (ring_vjp_subtract_0 C (sb x y) x y) (fun g => ring_jvp_subtract_0 C g (sb x y) x y)
+          /\ is_rule C ad ml (fun t => sb x t) y (op z1) z0 (ring_vjp_subtract_1 C op (sb x y) x y) (fun g => ring_jvp_subtract_1 C op g (sb x y) x y)).
+Proof.
+  intros K k0 k1 kadd kmul ksub kopp HR C z0 z1 ad ml sb op x y.
+  pose proof (ComplexRing.C_ring K k0 k1 kadd kmul ksub kopp HR) as CR.
+  split; [exact (multiply_rules C z0 z1 ad ml sb op CR x y)|].
+  split; [exact (square_rules C z0 z1 ad ml sb op CR x)|].
+  exact (subtract_rules C z0 z1 ad ml sb op CR x y).
+Qed.
+Print Assumptions C09_polynomial_rules_over_complex_numbers.
